@@ -204,11 +204,18 @@ impl KalmanState {
     pub fn merge(&self, other: &KalmanState) -> KalmanState {
         debug_assert_eq!(self.time, other.time);
 
-        let mixer = (self.uncertainty + other.uncertainty).inverse();
+        // Weight given to the other estimate
+        let gain = self.uncertainty * (self.uncertainty + other.uncertainty).inverse();
+        let complement = Matrix::unit() - gain;
 
         KalmanState {
-            state: self.state + self.uncertainty * mixer * (other.state - self.state),
-            uncertainty: self.uncertainty * mixer * other.uncertainty,
+            state: self.state + gain * (other.state - self.state),
+            // Mathematically equal to gain * other.uncertainty, but written as a sum of
+            // symmetric products it cannot lose positive semi-definiteness to rounding
+            // when one of the estimates is (nearly) exact.
+            uncertainty: (complement * self.uncertainty * complement.transpose()
+                + gain * other.uncertainty * gain.transpose())
+            .symmetrize(),
             time: self.time,
         }
     }
